@@ -92,6 +92,10 @@ func c16World() (*mc.Base, map[string]*execution.JobConfig) {
 	b := mc.NewBase(cfgs, true)
 	jcs := map[string]*execution.JobConfig{}
 	mk := func(name string, policy execution.ConcurrencyPolicy, opt *execution.OptionSpec) {
+		actor := "env"
+		if name == "jcraw" {
+			actor = "seed" // stored as submitted, before any defaulting (e.g. created while the webhook was not installed)
+		}
 		jc := &execution.JobConfig{
 			TypeMeta:   metav1.TypeMeta{APIVersion: "execution.furiko.io/v1alpha1", Kind: "JobConfig"},
 			ObjectMeta: metav1.ObjectMeta{Namespace: "default", Name: name},
@@ -105,13 +109,14 @@ func c16World() (*mc.Base, map[string]*execution.JobConfig) {
 				Option: opt,
 			},
 		}
-		stored, err := b.API.Create("env", sim.JobConfigs, jc)
+		stored, err := b.API.Create(actor, sim.JobConfigs, jc)
 		if err != nil {
 			panic(err)
 		}
 		jcs[name] = stored.(*execution.JobConfig)
 	}
 	mk("jc", execution.ConcurrencyPolicyForbid, nil)
+	mk("jcraw", execution.ConcurrencyPolicyForbid, nil)
 	mk("jcopt", execution.ConcurrencyPolicyEnqueue, &execution.OptionSpec{Options: []execution.Option{
 		{Type: execution.OptionTypeString, Name: "o", String: &execution.StringOptionConfig{Default: "DEF"}},
 		{Type: execution.OptionTypeString, Name: "r", Required: true},
@@ -143,7 +148,7 @@ func c16Jobs(c *pure.Ctx) {
 			{"pod-containers", obj{"taskTemplate": obj{"pod": obj{"spec": obj{"containers": containers}}}}},
 			{"full", obj{"maxAttempts": 2, "taskPendingTimeoutSeconds": 0, "parallelism": obj{"withCount": 2}, "taskTemplate": obj{"pod": obj{"metadata": obj{"labels": obj{"p": "q"}}, "spec": obj{"restartPolicy": "OnFailure", "containers": containers}}}}},
 		}},
-		{"spec.configName", []variant{{"absent", nil}, {"jc", "jc"}, {"jcopt", "jcopt"}, {"missing", "missing"}}},
+		{"spec.configName", []variant{{"absent", nil}, {"jc", "jc"}, {"jcopt", "jcopt"}, {"jcraw", "jcraw"}, {"missing", "missing"}}},
 		{"spec.optionValues", []variant{{"absent", nil}, {"json", `{"o":"OPT","r":"R"}`}, {"yaml", "r: R\n"}, {"junk", "{{{"}}},
 		{"spec.substitutions", []variant{{"absent", nil}, {"explicit", obj{"option.o": "EXPL", "job.name": "X"}}}},
 		{"metadata.labels", []variant{{"absent", nil}, {"set", obj{"a": "b", "from": "user"}}}},
@@ -213,6 +218,12 @@ func c16Jobs(c *pure.Ctx) {
 
 func c16JudgeJob(c *pure.Ctx, b *mc.Base, jcs map[string]*execution.JobConfig, desc string, pick map[string]string, raw []byte, res admitResult) {
 	h := b.Webhooks.JobMutating
+	// Defaulting works on the submitted object; the JobConfigs in the webhook's informer cache are shared
+	// with every other request and must come out of an admission exactly as they went in.
+	if keys := b.Webhooks.Ctx.Set.JobConfigs.MutatedKeys(); len(keys) > 0 {
+		c.Violate("cache-object-mutated", fmt.Sprintf("%s: admission changed the cached JobConfig(s) %v in place", desc, keys))
+		return
+	}
 	cfgName := pick["spec.configName"]
 	if !res.allowed {
 		c.Count("denied")
